@@ -430,3 +430,6 @@ def _enter_exit(c):
 
 reg("__enter__", _enter_exit)
 reg("__exit__", _enter_exit)
+
+# a second mapping of the files of a memory-mapped tensordict (only meaningful on the memmap kind: row load_memmap%memmap)
+reg("load_memmap", lambda c: (lambda: type(c.td).load_memmap(c.cont.prefix)))
